@@ -621,6 +621,79 @@ func bankMoves(evs []abciEvent) [][]string {
 	return out
 }
 
+// emitBlock delivers the txs in one block and writes its `hist.step` line; false when the block itself failed.
+func emitBlock(w *World, out *Out, hi int, txs []*histTx, dt time.Duration, stats map[string]int) bool {
+	var reqs []TxReq
+	for _, x := range txs {
+		reqs = append(reqs, x.req)
+	}
+	res := w.Block(dt, reqs)
+	line := J{"t": "hist.step", "id": hi, "h": res.Height, "dt": int64(dt / time.Second)}
+	if res.Err != nil {
+		line["blockErr"] = res.Err.Error()
+	}
+	if res.Panicked {
+		line["blockPanic"] = res.PanicText
+	}
+	jt := []J{}
+	for i, x := range txs {
+		e := J{"kind": x.kind, "f": x.f}
+		if i < len(res.Txs) {
+			e["code"] = res.Txs[i].Code
+			if res.Txs[i].Code != 0 {
+				lg := res.Txs[i].Log
+				if len(lg) > 160 {
+					lg = lg[:160]
+				}
+				e["log"] = lg
+				stats[x.kind+"/fail"]++
+			} else {
+				stats[x.kind+"/ok"]++
+			}
+		}
+		if i < len(res.Txs) {
+			e["moves"] = bankMoves(res.Txs[i].Events)
+		}
+		jt = append(jt, e)
+	}
+	// begin/end-block bank moves: FinalizeBlock lists block events with a mode attribute; keep order
+	var beginEv, endEv []abciEvent
+	for _, ev := range res.Events {
+		isBegin := false
+		for _, a := range ev.Attributes {
+			if a.Key == "mode" && a.Value == "BeginBlock" {
+				isBegin = true
+			}
+		}
+		if isBegin {
+			beginEv = append(beginEv, ev)
+		} else {
+			endEv = append(endEv, ev)
+		}
+	}
+	line["beginMoves"] = bankMoves(beginEv)
+	line["endMoves"] = bankMoves(endEv)
+	line["txs"] = jt
+	if res.Err != nil || res.Panicked {
+		out.Line(line)
+		return false
+	}
+	line["obs"] = w.Observe()
+	out.Line(line)
+	return true
+}
+
+// priceTxFixed feeds the prices currently in std.Prices (no random move).
+func (h *Hist) priceTxFixed() *histTx {
+	var feeds []oracletypes.FeedPrice
+	for _, a := range []string{"USDC", "ATOM", "ELYS"} {
+		feeds = append(feeds, oracletypes.FeedPrice{Asset: a, Price: h.std.Prices[a], Source: "elys"})
+	}
+	f := h.std.Feeder
+	return &histTx{kind: "oracle.feed", f: J{"ATOM": decRaw(h.std.Prices["ATOM"]), "signer": f.Addr.String(), "fee": [][]string{}},
+		req: TxReq{Signer: f, Msgs: []sdk.Msg{&oracletypes.MsgFeedMultiplePrices{Creator: f.Addr.String(), FeedPrices: feeds}}}}
+}
+
 func runHist(t *testing.T, seed int64, n int, out *Out) {
 	nHist := int(envInt("VERIF_HISTS", 1))
 	focus := os.Getenv("VERIF_FOCUS")
@@ -666,63 +739,9 @@ func runHist(t *testing.T, seed int64, n int, out *Out) {
 				}
 			}
 			dt := []time.Duration{5 * time.Second, 5 * time.Second, 6 * time.Second, time.Minute, time.Hour, 2 * time.Hour}[h.r.Intn(6)]
-			var reqs []TxReq
-			for _, x := range txs {
-				reqs = append(reqs, x.req)
-			}
-			res := w.Block(dt, reqs)
-			line := J{"t": "hist.step", "id": hi, "h": res.Height, "dt": int64(dt / time.Second)}
-			if res.Err != nil {
-				line["blockErr"] = res.Err.Error()
-			}
-			if res.Panicked {
-				line["blockPanic"] = res.PanicText
-			}
-			jt := []J{}
-			for i, x := range txs {
-				e := J{"kind": x.kind, "f": x.f}
-				if i < len(res.Txs) {
-					e["code"] = res.Txs[i].Code
-					if res.Txs[i].Code != 0 {
-						lg := res.Txs[i].Log
-						if len(lg) > 160 {
-							lg = lg[:160]
-						}
-						e["log"] = lg
-						stats[x.kind+"/fail"]++
-					} else {
-						stats[x.kind+"/ok"]++
-					}
-				}
-				if i < len(res.Txs) {
-					e["moves"] = bankMoves(res.Txs[i].Events)
-				}
-				jt = append(jt, e)
-			}
-			// begin/end-block bank moves: FinalizeBlock lists block events with a mode attribute; keep order
-			var beginEv, endEv []abciEvent
-			for _, ev := range res.Events {
-				isBegin := false
-				for _, a := range ev.Attributes {
-					if a.Key == "mode" && a.Value == "BeginBlock" {
-						isBegin = true
-					}
-				}
-				if isBegin {
-					beginEv = append(beginEv, ev)
-				} else {
-					endEv = append(endEv, ev)
-				}
-			}
-			line["beginMoves"] = bankMoves(beginEv)
-			line["endMoves"] = bankMoves(endEv)
-			line["txs"] = jt
-			if res.Err != nil || res.Panicked {
-				out.Line(line)
+			if !emitBlock(w, out, hi, txs, dt, stats) {
 				break
 			}
-			line["obs"] = w.Observe()
-			out.Line(line)
 		}
 		out.Line(J{"t": "stats", "dist": stats})
 		_ = fmt.Sprint
